@@ -29,6 +29,7 @@
  *     k mpt_iterator_consume(it,'d')   w documented loop (at most 40 elements)   s read as string
  *     z mpt_iterator_consume(it, 0, 0) (skip)      m conversions of the metatype itself
  *     n text iterator metatype to 's' without target
+ *     d generators: slot 1 := mpt_iterator_values(description the source hands out through its 's' conversion)
  *     text iterators only: y element as keyword ('k')   q the same without target   x element as 'c' vector
  *     o the same without target   u element as uint32   j documented loop reading keywords   l .. reading vectors
  * Output token per op, first token is the construction result (see ml/c19_driver.ml). */
@@ -249,7 +250,6 @@ static void op_meta(int s)
 	void *p;
 	double d;
 	int r;
-	if (!strkind && !bufkind) { vh_tok("-"); return; }
 	vh_tok("M:%d", MPT_metatype_convert(mt, 0, 0));
 	r = MPT_metatype_convert(mt, 0, &fmt);
 	vh_add(":%d/", r); if (fmt) vh_hex(fmt, strlen((const char *) fmt)); else vh_add("null");
@@ -257,6 +257,17 @@ static void op_meta(int s)
 	vh_add(":%d/%d", r, r < 0 ? -1 : p == (void *) slot[s].it);
 	vh_add(":%d", MPT_metatype_convert(mt, MPT_ENUM(TypeIteratorPtr), 0));
 	vh_add(":%d", MPT_metatype_convert(mt, 'd', &d));
+	if (!strkind && !bufkind) {
+		/* generators of mptplot/values: 's' with target (a value list hands out its description), without, addref */
+		const char *str = 0;
+		r = MPT_metatype_convert(mt, 's', &str);
+		vh_add(":%d/", r);
+		if (r < 0) vh_add("-");
+		else vh_add(str ? "set" : "null");   /* the text handed out is observed by op d (source re-created from it) */
+		vh_add(":%d", MPT_metatype_convert(mt, 's', 0));
+		vh_add(":%d", (int) mt->_vptr->addref(mt));
+		return;
+	}
 	if (strkind) {
 		/* the content of the 's' and vector conversions is not observed (see docs/notes_C19.md) */
 		const char *str = 0; struct iovec vec = { 0, 0 };
@@ -473,6 +484,17 @@ ops:
 			else vh_tok("Sn:%d", MPT_metatype_convert(slot[s].mt, 's', 0));
 			break;
 		case 'z': vh_tok("Z:%d", mpt_iterator_consume(it, 0, 0)); break;
+		case 'd': {
+			/* slot 1 := mpt_iterator_values(description handed out by this source) */
+			const char *str = 0; int r;
+			MPT_INTERFACE(metatype) *c;
+			if (strkind || bufkind) { vh_tok("-"); break; }
+			if ((r = MPT_metatype_convert(slot[s].mt, 's', &str)) < 0) { vh_tok("D:%d", r); break; }
+			c = str ? mpt_iterator_values(str) : 0;
+			set_slot(1, c);
+			vh_tok(c ? "D:1" : "D:0");
+			break;
+		}
 		case 's': {
 			const MPT_STRUCT(value) *val = it->_vptr->value(it);
 			const char *str = 0; int r;
